@@ -28,7 +28,8 @@ Definition size_ok (t:tyexpr) (z:sizespec) : bool :=
   | _ => true
   end.
 Definition field_ok (f:fielddecl) : bool := size_ok (fd_ty f) (fd_size f).
-Definition item_ok (i:titem) : bool := match i with TField f => field_ok f | TAnno _ => true end.
+(* in-place tuples are outside the global equality (DenoteProps.table_declared_exact covers them per declaration) *)
+Definition item_ok (i:titem) : bool := match i with TField f => field_ok f | TAnno _ => true | TTuple _ _ _ => false end.
 Definition member_ok (mem:member) : bool :=
   match mem with
   | MType _ _ _ _ items => forallb item_ok items && nodupb (item_names items)
@@ -51,9 +52,9 @@ Definition field_image (ap path:list string) (f:fielddecl) : ty :=
   if fd_array f then Ty (KList t) false [] [] "" else t.
 
 Definition items_fields (ap:list string) (tn:string) (items:list titem) : list (string * ty) :=
-  flat_map (fun i => match i with TField f => [(fd_name f, field_image ap [tn] f)] | TAnno _ => [] end) items.
+  flat_map (fun i => match i with TField f => [(fd_name f, field_image ap [tn] f)] | _ => [] end) items.
 Definition item_annos (items:list titem) : list anno :=
-  flat_map (fun i => match i with TAnno a => [a] | TField _ => [] end) items.
+  flat_map (fun i => match i with TAnno a => [a] | _ => [] end) items.
 
 Definition umember_image (ap:list string) (n:string) (m:umember) : ty :=
   let k := fst (base_type ap [n] (um_ty m)) in
